@@ -1066,8 +1066,11 @@ static void add_ref_seeds(void) {
 		rsig s;
 		ref_sig_params(&p, tail, rfc);
 		rs_build(&s, &p);
-		/* the second metadata link also carries machine id, sequence number (three octets) and request time */
+		/* the second metadata link also carries machine id, sequence number (three octets: beyond the SDK's pool of small
+		 * integers) and request time */
+		ref_meta_seqnr = 70007;
 		ref_link_meta(&s.ch[1].links[1], 0, "cl", 0, 1, 2);
+		ref_meta_seqnr = 7;
 		if (rs_fix(&s, RS_FIX_INPUTS | RS_FIX_CAL_IN | RS_FIX_TAIL) != 0) vf_harness_error("reference seed");
 		vb_reset(&b); rs_serialize(&s, &b);
 		snprintf(nm, sizeof nm, "ref:sig.tail%d.rfc%d", tail, rfc);
